@@ -450,6 +450,56 @@ func (fa *funcAnalysis) checkUnits(kind string, base string, e ast.Expr, at toke
 	})
 }
 
+// checkRowOffset: an index or slice bound of a matrix operand (one paired
+// with a leading dimension) that multiplies two non-constant quantities
+// without involving the operand's leading dimension computes a row offset
+// as if the rows were packed (a[i*n:(i+1)*n] instead of a[i*lda:i*lda+n]).
+func (fa *funcAnalysis) checkRowOffset(owner string, e ast.Expr, at token.Pos) {
+	if e == nil {
+		return
+	}
+	isMatrix := false
+	for o, k := range fa.strideOwner {
+		if k == owner && strings.HasPrefix(strings.ToLower(o.Name()), "ld") {
+			isMatrix = true
+		}
+	}
+	if !isMatrix {
+		return
+	}
+	fa.res.Obligations++
+	fa.res.Count("matrix_index_expressions", 1)
+	var bad ast.Expr
+	ast.Inspect(e, func(n ast.Node) bool {
+		be, ok := n.(*ast.BinaryExpr)
+		if !ok || be.Op != token.MUL || bad != nil {
+			return bad == nil
+		}
+		constant := func(x ast.Expr) bool {
+			tv, ok := fa.info.Types[x]
+			return ok && tv.Value != nil
+		}
+		if constant(be.X) || constant(be.Y) {
+			return true
+		}
+		u := map[string]bool{}
+		fa.exprUnits(be, u)
+		if len(u) == 0 {
+			bad = be
+		}
+		return true
+	})
+	if bad != nil {
+		fa.res.Add(core.Finding{
+			Rule: "STRIDE.rowoffset",
+			Key:  fmt.Sprintf("STRIDE.rowoffset|%s|%s", fa.name, fa.ownerLabel(owner)),
+			Pos:  core.Pos(at), Func: fa.name,
+			Msg: fmt.Sprintf("matrix operand %q is addressed with the product %q, which does not involve its leading dimension: rows are %s apart, not packed",
+				fa.ownerLabel(owner), types.ExprString(bad), "ld"+strings.TrimPrefix(fa.ownerLabel(owner), "")),
+		})
+	}
+}
+
 func (fa *funcAnalysis) check(body ast.Node) {
 	ast.Inspect(body, func(n ast.Node) bool {
 		switch x := n.(type) {
@@ -457,6 +507,7 @@ func (fa *funcAnalysis) check(body ast.Node) {
 			if k, ok := fa.baseOwner(x.X); ok {
 				fa.res.Count("index_sites", 1)
 				fa.checkUnits("index", k, x.Index, x.Pos())
+				fa.checkRowOffset(k, x.Index, x.Pos())
 			}
 		case *ast.SliceExpr:
 			if k, ok := fa.baseOwner(x.X); ok {
@@ -464,6 +515,8 @@ func (fa *funcAnalysis) check(body ast.Node) {
 				fa.checkUnits("slice-low", k, x.Low, x.Pos())
 				fa.checkUnits("slice-high", k, x.High, x.Pos())
 				fa.checkUnits("slice-max", k, x.Max, x.Pos())
+				fa.checkRowOffset(k, x.Low, x.Pos())
+				fa.checkRowOffset(k, x.High, x.Pos())
 			}
 		case *ast.CallExpr:
 			fa.checkCall(x)
@@ -630,6 +683,7 @@ func Run(cfg core.Config, scope core.Scope) *core.Result {
 	res.Rules = append(res.Rules,
 		"STRIDE.index: every index/slice bound of an operand carries only that operand's own ld/inc/Stride unit",
 		"STRIDE.len: a comparison of len(p) with a required extent uses only p's own ld/inc/Stride",
+		"STRIDE.rowoffset: an index of a matrix operand never multiplies two non-constant quantities without its leading dimension",
 		"STRIDE.walk: a matrix operand passed as a vector is walked with a constant increment or one derived from its own leading dimension",
 		"STRIDE.pair: at every call or struct literal a (slice, stride) pair refers to one operand")
 	res.Configs = append(res.Configs, cfg.String())
